@@ -580,7 +580,7 @@ Example bytes_manager_ex_values :
 Proof. vm_compute. reflexivity. Qed.
 
 Ltac rule_canon :=
-  split; cbn [brule_id brule_fds];
+  cbv delta [mex_rule1 mex_rule2 mex_nocomp mex_other]; split; cbn [brule_id brule_fds];
   [canon_concrete|repeat constructor; unfold canon_rfd; cbn [br_tv canon_tv fst snd]; canon_concrete].
 
 (* the round-trip theorem applies to the rule set of ManagerBytes.v (a rule with four pairings, a rule with a
@@ -602,8 +602,8 @@ Example bytes_manager_roundtrip_ex st : exists x y,
   bcm_decompress [mex_rule1; mex_rule2; mex_nocomp] x (Some Up) = Ok y /\ canon y /\ abs y = abs mex_packet /\
   b_eq y mex_packet = Ok true.
 Proof.
-  destruct (bfactory S_UDP mex_packet) as [[bfs bpl]| |] eqn:E; vm_compute in E; try discriminate E.
-  injection E as <- <-.
+  remember (bfactory S_UDP mex_packet) as p0 eqn:E. pose proof E as E'. vm_compute in E'. rewrite E' in E. clear E' p0.
+  symmetry in E.
   match type of E with _ = Ok (?f, ?p) =>
     pose proof (bytes_manager_roundtrip_factory S_UDP [mex_rule1; mex_rule2; mex_nocomp] mex_packet Up st f p
                   mex_packet_canon eq_refl mex_rules_canon E) as H end.
@@ -617,7 +617,7 @@ Proof.
     + right. split; [vm_compute; repeat split|]. vm_compute. repeat split. lia.
     + left. split; reflexivity.
   - exact Ex.
-  - exists x, y. repeat split; assumption.
+  - exists x, y. split; [exact Ex|]. split; [exact Cx|]. split; [exact Ey|]. split; [exact Cy|]. split; [exact Ay|exact Qy].
 Qed.
 
 (* the dispatch and no-match theorems apply *)
@@ -631,8 +631,8 @@ Qed.
 
 Example bytes_nomatch_ex st : bcm_compress (bfactory S_UDP) [mex_other] mex_packet Up st = Exc RuleDescriptorMatchError.
 Proof.
-  destruct (bfactory S_UDP mex_packet) as [[bfs bpl]| |] eqn:E; vm_compute in E; try discriminate E.
-  injection E as <- <-.
+  remember (bfactory S_UDP mex_packet) as p0 eqn:E. pose proof E as E'. vm_compute in E'. rewrite E' in E. clear E' p0.
+  symmetry in E.
   match type of E with _ = Ok (?f, ?p) =>
     apply (bytes_nomatch_factory S_UDP [mex_other] mex_packet Up st f p mex_packet_canon eq_refl) end.
   - apply Forall_cons; [rule_canon|apply Forall_nil].
@@ -640,7 +640,3 @@ Proof.
   - vm_compute. reflexivity.
   - vm_compute. reflexivity.
 Qed.
-
-Print Assumptions bytes_manager_roundtrip_ex.
-Print Assumptions bytes_dispatch_ex.
-Print Assumptions bytes_nomatch_ex.
